@@ -234,6 +234,8 @@ func handleOrderedFormData(r *Request) error {
 }
 
 func handleMarshalBody(c *Client, r *Request) error {
+	// the value stays the request's body: it is marshalled again on every execution
+	defer func(v interface{}) { r.marshalBody = v }(r.marshalBody)
 	ct := ""
 	if r.Headers != nil {
 		ct = r.Headers.Get(header.ContentType)
